@@ -40,6 +40,13 @@ def replay_context(fl, FA, vals=None, seed=0, budget=300, **kw):
             boom_at = rng.choice([None] + list(range(depth)))
             exc = rng.choice([ValueError, KeyboardInterrupt, _Boom, SystemExit])
             problems = []
+            # in a third of the histories every context object is created up front (and a setting assigned directly in between) and entered later:
+            # "the previous value" is the value when the context is ENTERED
+            prebuilt = [S.context(**kws) for kws in levels] if it % 3 == 2 else None
+            if prebuilt is not None:
+                for n in names:
+                    if rng.random() < 0.3 and n != "factory_manager":
+                        setdirect(n, fresh(n))
 
             def check_level(level):
                 entry = snapshot()
@@ -47,7 +54,7 @@ def replay_context(fl, FA, vals=None, seed=0, budget=300, **kw):
                 mid = {}
                 raised = None
                 try:
-                    with S.context(**kws):
+                    with (prebuilt[level] if prebuilt is not None else S.context(**kws)):
                         try:
                             now = snapshot()
                             for n in names:
@@ -83,7 +90,7 @@ def replay_context(fl, FA, vals=None, seed=0, budget=300, **kw):
             seen.add((depth, boom_at, exc.__name__, tuple(tuple(sorted(l)) for l in levels)))
             if problems:
                 return {"failed": True, "expected": "every named setting restored, unnamed ones untouched", "observed": problems[:3], "cases": cases,
-                        "call": f"nesting of contexts over {[sorted(l) for l in levels]}, exception {exc.__name__ if boom_at is not None else None} raised at level {boom_at}"}
+                        "call": ("contexts created up front, entered later: " if prebuilt is not None else "") + f"nesting of contexts over {[sorted(l) for l in levels]}, exception {exc.__name__ if boom_at is not None else None} raised at level {boom_at}"}
             for n, v in base.items():
                 setdirect(n if n != "factory_manager" else "_factory_manager", v)
     finally:
@@ -103,11 +110,31 @@ def replay_helpers(fl, FA, vals=None, **kw):
         e = fl.Engine("e", input_variables=[fl.InputVariable("a", minimum=0, maximum=1, terms=[fl.Ramp("t", 0, 1)])],
                       output_variables=[fl.OutputVariable("o", minimum=0, maximum=1, defuzzifier=fl.WeightedAverage(), terms=[fl.Constant("c", 0.5)])],
                       rule_blocks=[fl.RuleBlock(activation=fl.General(), rules=[fl.Rule.create("if a is t then o is c")])])
-        txt = exp.to_string(e, values=3)
+        txt = exp.to_string_from_scope(e, values=3)
         line = txt.strip().splitlines()[1].split()[0]
         if len(line.split(".")[1]) != 6:
             out.append(f"FldExporter created before the context printed {line!r} inside context(decimals=6)")
     after = (fl.Op.str(0.123456789), bool(fl.Op.is_close(1.0, 1.05)))
+    # a tighter tolerance and two different aliases, each observed inside its own context only (a helper that freezes its first answer,
+    # or binds a setting at definition time, shows here)
+    rep = getattr(fl.library, "representation", None)
+    seen = []
+    for alias in ("fl", "", "zz"):
+        with S.context(alias=alias, atol=1e-6, rtol=0.0):
+            stmt = rep.import_statement() if rep is not None and hasattr(rep, "import_statement") else None
+            seen.append((alias, stmt, bool(fl.Op.is_close(1.0, 1.0005))))
+    for alias, stmt, close in seen:
+        if alias == "zz" and stmt is not None and " as zz" not in stmt:
+            out.append(f"import_statement() inside context(alias='zz') is {stmt!r}")
+        if alias == "fl" and stmt is not None and " as zz" in stmt:
+            out.append(f"import_statement() inside context(alias='fl') is {stmt!r}")
+        if close:
+            out.append(f"Op.is_close(1.0, 1.0005) is True inside context(atol=1e-6, rtol=0) [alias {alias!r}]")
+    if rep is not None and hasattr(rep, "import_statement"):
+        with S.context(alias="fl"):
+            again = rep.import_statement()
+        if " as zz" in again:
+            out.append(f"import_statement() inside a later context(alias='fl') is {again!r}")
     if inside != ("0.123457", True) or before != after or before != ("0.123", False):
         out.append(f"Op.str/Op.is_close before {before}, inside {inside}, after {after}")
     return {"failed": bool(out), "expected": "temporary values observed only inside the context", "observed": out}
